@@ -357,6 +357,19 @@ func runC14live(t *vf.T, c c14live) {
 				}
 				pending = append(pending[:i], pending[i+1:]...)
 			}
+		case "cancel-blind":
+			// the requester gives up without looking at its channel (as bigmachineExecutor.Run does
+			// when its context ends): a request that was never received holds nothing afterwards
+			if len(pending) > 0 {
+				i := ev.Pick % len(pending)
+				pending[i].o.Cancel()
+				need -= pending[i].procs
+				t.Count("offers_cancelled", 1)
+				t.Count("offers_cancelled_without_receiving", 1)
+				pending = append(pending[:i], pending[i+1:]...)
+			}
+		case "pause":
+			time.Sleep(50 * time.Millisecond)
 		case "done-ok", "done-remote", "done-transport":
 			if len(granted) > 0 {
 				i := ev.Pick % len(granted)
@@ -549,7 +562,14 @@ func runC14(r *vf.Runner) {
 	if !r.Quick() {
 		n = 800
 	}
-	ops := []string{"offer", "offer", "offer", "recv", "cancel", "done-ok", "done-ok", "done-remote", "done-transport", "kill", "recv"}
+	ops := []string{"offer", "offer", "offer", "recv", "cancel", "cancel-blind", "done-ok", "done-ok", "done-remote", "done-transport", "kill", "recv"}
+	// fixed: a request queued behind a full machine, capacity freed, the requester gone without receiving
+	for _, mp := range []int{1, 2, 4} {
+		c := c14live{Kind: "live", MachProcs: mp, MaxLoad: 1, MaxP: mp, Events: []c14ev{
+			{Op: "offer", Procs: mp - 1}, {Op: "recv"}, {Op: "offer", Procs: mp - 1, Prio: 1}, {Op: "offer", Procs: 0}, {Op: "pause"},
+			{Op: "done-ok", Pick: 0}, {Op: "pause"}, {Op: "cancel-blind", Pick: 0}, {Op: "pause"}, {Op: "cancel-blind", Pick: 0}, {Op: "offer", Procs: mp - 1}, {Op: "recv"}}}
+		r.Case(c, func(t *vf.T) { runC14live(t, c) })
+	}
 	for i := 0; i < n; i++ {
 		c := c14live{Kind: "live", MachProcs: rnd.Pick(1, 2, 3, 4), MaxLoad: []float64{0.3, 0.5, 0.9, 0.95, 1}[rnd.Intn(5)], MaxP: rnd.Pick(1, 3, 8)}
 		for j, k := 0, 3+rnd.Intn(25); j < k; j++ {
